@@ -163,6 +163,20 @@ class CFG:
             self._edge(n, self._seq(s.orelse, succ, ctx), "f")
             self._raises(n, s, ctx)
             return n
+        if type(s).__name__ == "Match":
+            # structural pattern matching that the normaliser could not turn into an if-chain: one branch per case, in order
+            n = self._new("test", s)
+            nxt = succ
+            heads = []
+            for case in s.cases:
+                heads.append(self._seq(case.body, succ, ctx))
+            for h in heads:
+                self._edge(n, h, "t")
+            irrefutable = any(isinstance(c.pattern, ast.MatchAs) and c.pattern.pattern is None and c.guard is None for c in s.cases)
+            if not irrefutable:
+                self._edge(n, nxt, "f")
+            self._raises(n, s, ctx)
+            return n
         if isinstance(s, (ast.While, ast.For, ast.AsyncFor)):
             n = self._new("loop", s)
             inner = Ctx(lambda: succ, lambda: n, ctx.ret, ctx.exc, ctx.rgx)
